@@ -151,6 +151,29 @@ FILE *__wrap_fopen(const char *path, const char *mode)
   return __real_fopen(path, mode);
 }
 
+/* object life-cycle events, reported by the library through its verification hook
+   (lib/libeconf.c, guard OPENSUSE_LIBECONF_VERIF); ids are handed out in order of creation */
+#ifdef OPENSUSE_LIBECONF_VERIF
+extern void (*econf_verif_object_hook)(const char *event, const void *object);
+#endif
+#define MAXOBJ 8192
+static TL int log_obj;
+static TL const void *obj_ptr[MAXOBJ];
+static TL int obj_n;
+static void obj_event(const char *event, const void *object)
+{
+  if (!log_obj) return;
+  if (strcmp(event, "free") != 0) {
+    if (obj_n < MAXOBJ) obj_ptr[obj_n] = object;
+    printf("obj %s %d\n", event, obj_n++);
+    return;
+  }
+  /* the most recent object created at this address (addresses are re-used after a release) */
+  for (int i = (obj_n < MAXOBJ ? obj_n : MAXOBJ) - 1; i >= 0; i--)
+    if (obj_ptr[i] == object) { obj_ptr[i] = NULL; printf("obj free %d\n", i); return; }
+  printf("obj free ?\n");
+}
+
 /* ---------- helpers ---------- */
 static void mkparents(const char *path)
 {
@@ -396,6 +419,7 @@ static void run_cmd(char *line)
     }
   }
   else if (!strcmp(c, "LOGOPEN")) log_open = atoi(tok[1]);
+  else if (!strcmp(c, "OBJLOG")) log_obj = atoi(tok[1]);
   else if (!strcmp(c, "NEW")) {
     int s = sl(tok[1]); econf_err e;
     if (!strcmp(tok[2], "key")) { char *d = dec(tok[3], NULL), *cm = dec(tok[4], NULL); e = econf_newKeyFile(&slot[s], d[0], cm[0]); free(d); free(cm); }
@@ -628,6 +652,9 @@ static int threads_main(void)
 int main(int argc, char **argv)
 {
   umask(022);   /* files 0644, directories 0755: what the model's `modeOf` says */
+#ifdef OPENSUSE_LIBECONF_VERIF
+  econf_verif_object_hook = obj_event;
+#endif
   const char *base = getenv("VERIF_SCRATCH");
   if (!base) base = access("/dev/shm", W_OK) == 0 ? "/dev/shm" : "/tmp";
   if (argc > 1) timeout_s = atoi(argv[1]);
